@@ -5,6 +5,7 @@ is executed on the real asynq.mock.patch; every cell builds a fresh module (regi
 functions/classes, and is compared with a direct reference: the same replacement installed with a plain setattr() in a
 second fresh world and called synchronously.
 """
+import dataclasses
 import sys
 import time
 import types
@@ -20,7 +21,9 @@ RULE = ("cell = (target kind, replacement kind[, second replacement kind], entry
         "module-level @asynq function (patched by the dotted name of a module created in sys.modules), @asynq method, classmethod "
         "(called via class / instance), staticmethod (via class / instance), @asynq method patched on one instance, plain method, "
         "plain non-callable class attribute; replacements: default MagicMock, plain function, classmethod()/staticmethod()-wrapped "
-        "function on the matching target, bound method of another object, callable object, callable object with __slots__, an "
+        "function on the matching target, bound method of another object, callable object, callable object with __slots__, "
+        "callable objects that have a __dict__ but refuse new attributes (frozen dataclass instance, object whose __setattr__ "
+        "raises, Mock(spec_set=['__call__'])), an "
         "@asynq function, new_callable=MagicMock / a callable class (as documented, and with the autospec=None spelling), "
         "non-callable value; entry points patch('dotted.name') and patch.object(owner, 'name'); activation: with-block, decorator "
         "on a test function, decorator on a test class, start()/stop(), start() + patch.stopall(); exit: normal / exception; "
@@ -54,7 +57,9 @@ DB, DK, RV = "dB", "dK", "mock-rv"
 TARGETS = ["modfn", "method", "cm_cls", "cm_inst", "sm_cls", "sm_inst", "inst_method", "plain_method", "plain_attr"]
 ASYNC_TARGETS = ("modfn", "method", "cm_cls", "cm_inst", "sm_cls", "sm_inst", "inst_method")
 BOUND_TARGETS = ("method", "cm_cls", "cm_inst", "inst_method", "plain_method", "sm_inst")
-REPLS = ["default", "function", "function_like_target", "boundmethod", "callable_obj", "callable_slots", "asynq_fn",
+# callable_frozen / callable_setattr_raises / mock_spec_set: callables that HAVE an instance __dict__ but refuse new attributes
+REPLS = ["default", "function", "function_like_target", "boundmethod", "callable_obj", "callable_slots", "callable_frozen",
+         "callable_setattr_raises", "mock_spec_set", "asynq_fn",
          "new_callable_mock", "new_callable_class", "new_callable_mock_ws", "new_callable_class_ws", "noncallable"]
 # second dimension of nested / sequential histories (the documented new_callable spelling is covered by the single history)
 PAIR_REPLS = [r for r in REPLS if r not in ("new_callable_mock", "new_callable_class")]
@@ -283,6 +288,30 @@ class SlotsRec(object):
         return result_of(args, kwargs)
 
 
+@dataclasses.dataclass(frozen=True)
+class FrozenRec(object):
+    """callable frozen dataclass instance: has a __dict__, refuses attribute assignment (FrozenInstanceError)"""
+    calls: list = dataclasses.field(default_factory=list)
+
+    def __call__(self, *args, **kwargs):
+        self.calls.append((args, kwargs))
+        return result_of(args, kwargs)
+
+
+class LockedRec(object):
+    """callable object with a __dict__ whose __setattr__ refuses every new attribute"""
+
+    def __init__(self):
+        self.__dict__["calls"] = []
+
+    def __setattr__(self, name, value):
+        raise AttributeError("LockedRec does not accept attribute %r" % (name,))
+
+    def __call__(self, *args, **kwargs):
+        self.calls.append((args, kwargs))
+        return result_of(args, kwargs)
+
+
 class Other(object):
     def __init__(self):
         self.calls = []
@@ -328,6 +357,16 @@ class Repl(object):
             self.log = o.calls
             self.kw["new"] = o
             self.direct = lambda: o
+        elif kind in ("callable_frozen", "callable_setattr_raises"):
+            o = FrozenRec() if kind == "callable_frozen" else LockedRec()
+            self.log = o.calls
+            self.kw["new"] = o
+            self.direct = lambda: o
+        elif kind == "mock_spec_set":
+            o = L.mock.Mock(spec_set=["__call__"], return_value=RV)
+            self.spec_mock = o
+            self.kw["new"] = o
+            self.direct = lambda: o
         elif kind == "callable_slots":
             o = SlotsRec()
             self.log = o.calls
@@ -359,6 +398,8 @@ class Repl(object):
     def read(self, installed):
         """call log of the replacement, as [(args, kwargs)]"""
         try:
+            if self.kind == "mock_spec_set":  # the mock itself keeps the log, whatever object patch() installed for it
+                return [(tuple(c[0]), dict(c[1])) for c in self.spec_mock.call_args_list]
             if self.is_mock:
                 return [(tuple(c[0]), dict(c[1])) for c in installed.call_args_list]
             if self.from_factory:
@@ -812,7 +853,8 @@ def first_repls(tier):
 
 
 # replacement kinds where the caller hands ONE object to patch(): these can be shared by two patches
-SHAREABLE = ["function", "function_like_target", "boundmethod", "callable_obj", "callable_slots", "asynq_fn", "noncallable"]
+SHAREABLE = ["function", "function_like_target", "boundmethod", "callable_obj", "callable_slots", "callable_frozen",
+             "callable_setattr_raises", "mock_spec_set", "asynq_fn", "noncallable"]
 # (second target, shared object) variants of the nested / sequential / overlap_fifo histories
 VARIANTS = [("same", True), ("alias", True), ("alias", False)]
 
